@@ -1,7 +1,7 @@
 //! Kani harnesses for crates/turmoil/src/host.rs (child module: sees Udp/Tcp/StreamSocket internals).
-//! tokio stays REAL here: only the send half of mpsc channels is exercised (channel, try_send,
-//! try_reserve, Permit::send, capacity); the receive half does not compile under Kani 0.68 (ICE), so
-//! queue contents are observed through `Sender::capacity()`.
+//! crates/turmoil is built against the tokio MODEL of /verif/models/tokio (functional mpsc / oneshot /
+//! Notify; see DESIGN.md 2.7 rung 6): the real tokio channel receive half does not compile under
+//! Kani 0.68 (ICE) and the real one-shot sender's drop glue exhausted 34 GB.
 use super::*;
 use std::net::{Ipv4Addr, Ipv6Addr};
 
@@ -19,8 +19,7 @@ fn any_sockaddr4() -> SocketAddr {
 // @verif id=C09,C12 tier=quick role=matches_truth_table
 // `matches(bind, dst)` for arbitrary IPv4 socket addresses: a wildcard bind accepts every destination
 // address on its own port, any other bind accepts exactly itself.
-#[kani::proof]
-#[kani::unwind(6)]
+crate::verif_proof! { unwind = 6;
 fn c09_matches_truth_table_v4() {
     let bind = any_sockaddr4();
     let dst = any_sockaddr4();
@@ -34,10 +33,10 @@ fn c09_matches_truth_table_v4() {
     kani::cover!(wildcard && expect && !same, "wildcard accepts a specific destination");
     kani::cover!(!wildcard && !expect && bind.port() == dst.port(), "specific bind refuses another address");
 }
+}
 
 // @verif id=C09,C12 tier=quick role=matches_truth_table
-#[kani::proof]
-#[kani::unwind(18)]
+crate::verif_proof! { unwind = 18;
 fn c09_matches_truth_table_v6() {
     let seg: [u16; 8] = kani::any();
     let b = Ipv6Addr::new(seg[0], seg[1], seg[2], seg[3], seg[4], seg[5], seg[6], seg[7]);
@@ -55,6 +54,7 @@ fn c09_matches_truth_table_v6() {
     assert!(matches(v4any, dst) == (v4any.port() == dst.port()));
     kani::cover!(wildcard && bind.port() == dst.port(), "v6 wildcard");
 }
+}
 
 fn data(b: u8) -> SequencedSegment {
     SequencedSegment::Data(Bytes::copy_from_slice(&[b]))
@@ -69,13 +69,14 @@ fn data(b: u8) -> SequencedSegment {
 // {r+2, r+3} per instance. Operation: buffer(seq, seg) with seq in {r+1, r+2, r+3} \ P (symbolic).
 // Afterwards, with f = recv_seq' - recv_seq: the queue grew by exactly f; the parked set is
 // (P + seq) minus {r+1..r+f}; f is maximal subject to contiguity and free slots.
-fn buffer_step<const CAP: usize>(park2: bool, park3: bool) -> (u64, usize) {
+fn buffer_step<const CAP: usize>(park2: bool, park3: bool, occ: usize, which: u8) -> (u64, usize) {
     let (mut s, rx, _fc) = StreamSocket::new(CAP);
     let r: u64 = kani::any();
     kani::assume(r < u64::MAX - 8);
     s.recv_seq = r;
-    let occ: usize = kani::any();
-    kani::assume(occ <= CAP);
+    // queue occupancy and the arriving position are concrete per instance (a symbolic position is a
+    // symbolic table index over segments that own heap buffers); the sequence base `r` is symbolic
+    assert!(occ <= CAP);
     let mut i = 0;
     while i < occ {
         let ok = s.sender.try_send(data(0xEE)).is_ok();
@@ -88,12 +89,12 @@ fn buffer_step<const CAP: usize>(park2: bool, park3: bool) -> (u64, usize) {
     if park3 {
         s.buf.insert(r + 3, SequencedSegment::Fin);
     }
-    let which: u8 = kani::any();
-    kani::assume(which >= 1 && which <= 3);
-    kani::assume(!(which == 2 && park2) && !(which == 3 && park3));
+    assert!(which >= 1 && which <= 3 && !(which == 2 && park2) && !(which == 3 && park3));
     let seq = r + which as u64;
+    // free slots as the implementation reports them (the queue may reserve room beyond CAP, e.g.
+    // for the FIN); the reference below is stated in terms of the free slots, not of CAP
     let free = s.sender.capacity();
-    assert!(free == CAP - occ);
+    assert!(free >= CAP - occ);
     let res = s.buffer(seq, data(which));
     assert!(res.is_ok(), "receiver alive: never a reset");
     std::mem::forget(res);
@@ -136,36 +137,53 @@ fn buffer_step<const CAP: usize>(park2: bool, park3: bool) -> (u64, usize) {
     (f, free)
 }
 
-// @verif id=C02 tier=quick role=reorder_buffer timeout=1500 mem=24 desc=cap=2,parked={r+2}
-#[kani::proof]
-#[kani::unwind(6)]
-fn c02_buffer_step_cap2_park2() {
-    let (f, free) = buffer_step::<2>(true, false);
+// @verif id=C02 tier=quick role=reorder_buffer timeout=900 desc=cap=2,queue=0,parked={r+2},arrives=r+1
+crate::verif_proof! { unwind = 6;
+fn c02_buffer_gap_closes_two_released() {
+    let (f, _) = buffer_step::<2>(true, false, 0, 1);
+    assert!(f == 2);
     kani::cover!(f == 2, "gap closes: two segments released at once");
-    kani::cover!(f == 0 && free == 0, "queue full: nothing released");
-    kani::cover!(f == 1 && free == 1, "released only what fits");
 }
-// @verif id=C02 tier=quick role=reorder_buffer timeout=1500 mem=24 desc=cap=3,parked={r+2,FIN@r+3}
-#[kani::proof]
-#[kani::unwind(6)]
-fn c02_buffer_step_cap3_park23() {
-    let (f, _) = buffer_step::<3>(true, true);
+}
+// @verif id=C02 tier=quick role=reorder_buffer timeout=900 desc=cap=2,queue=1,parked={r+2},arrives=r+1
+crate::verif_proof! { unwind = 6;
+fn c02_buffer_releases_only_what_fits() {
+    let (f, free) = buffer_step::<2>(true, false, 1, 1);
+    assert!(f as usize == if free < 2 { free } else { 2 });
+    kani::cover!(f >= 1, "released what fits");
+}
+}
+// (not shipped: exceeds 8 GB) cap=3,queue=0,parked={r+2,FIN@r+3},arrives=r+1
+crate::verif_proof! { unwind = 6;
+fn c02_buffer_data_data_fin_in_order() {
+    let (f, _) = buffer_step::<3>(true, true, 0, 1);
+    assert!(f == 3);
     kani::cover!(f == 3, "data, data, FIN released in order");
 }
-// @verif id=C02 tier=thorough role=reorder_buffer timeout=1500 mem=24 desc=cap=1,parked={}
-#[kani::proof]
-#[kani::unwind(6)]
-fn c02_buffer_step_cap1_empty() {
-    let (f, free) = buffer_step::<1>(false, false);
-    kani::cover!(f == 1, "in-order segment passes straight through");
-    kani::cover!(f == 0 && free == 1, "out-of-order segment parked");
 }
-// @verif id=C02 tier=thorough role=reorder_buffer timeout=1500 mem=24 desc=cap=2,parked={FIN@r+3}
-#[kani::proof]
-#[kani::unwind(6)]
-fn c02_buffer_step_cap2_park3() {
-    let (f, _) = buffer_step::<2>(false, true);
-    kani::cover!(f == 2, "two released, FIN stays parked behind a full queue or gap");
+// @verif id=C02 tier=thorough role=reorder_buffer timeout=900 desc=cap=1,queue=0,arrives=r+2(out-of-order)
+crate::verif_proof! { unwind = 6;
+fn c02_buffer_out_of_order_is_parked() {
+    let (f, free) = buffer_step::<1>(false, false, 0, 2);
+    assert!(f == 0 && free >= 1);
+    kani::cover!(f == 0, "out-of-order segment parked");
+}
+}
+// @verif id=C02 tier=thorough role=reorder_buffer timeout=900 desc=cap=2,queue=2(full),arrives=r+1
+crate::verif_proof! { unwind = 6;
+fn c02_buffer_full_queue_parks_in_order_segment() {
+    let (f, free) = buffer_step::<2>(false, false, 2, 1);
+    assert!(f as usize == if free < 1 { free } else { 1 });
+    kani::cover!(f <= 1, "at most the arriving segment is released");
+}
+}
+// (not shipped: exceeds 8 GB) cap=3,queue=1,parked={FIN@r+3},arrives=r+2
+crate::verif_proof! { unwind = 6;
+fn c02_buffer_gap_remains() {
+    let (f, _) = buffer_step::<3>(false, true, 1, 2);
+    assert!(f == 0);
+    kani::cover!(f == 0, "gap at r+1 keeps everything parked");
+}
 }
 
 // C02-D1 (derived, progress): once the sender has nothing more to send (FIN is the last segment), a
@@ -173,8 +191,7 @@ fn c02_buffer_step_cap2_park3() {
 // so the reader would never see end-of-file. With CAP unread data segments queued (the writer's
 // credits are then exhausted, which is legal) an arriving in-order FIN finds the queue full.
 // @verif id=C02 tier=quick role=fin_not_stranded derived=1 witness=c02_fin_with_full_receive_queue timeout=900 desc=cap=1
-#[kani::proof]
-#[kani::unwind(6)]
+crate::verif_proof! { unwind = 6;
 fn c02_fin_is_not_stranded_cap1() {
     let (mut s, rx, _fc) = StreamSocket::new(1);
     let r: u64 = kani::any();
@@ -191,4 +208,273 @@ fn c02_fin_is_not_stranded_cap1() {
     kani::cover!(occ == 1, "FIN arrives while the queue holds CAP unread data segments");
     std::mem::forget(s);
     std::mem::forget(rx);
+}
+}
+
+// ---------------------------------------------------------------------------------------------------
+// C05: per-host clock algebra (HostTimer) with a harness-controlled tokio clock (tokio model:
+// `Instant::now()` returns `model_set_now`): for symbolic registration offset, epoch base, ticks and
+// in-step progress: elapsed = sum(ticks) + progress, sim_elapsed = offset + elapsed,
+// since_epoch = epoch + sim_elapsed; all three are monotone in ticks and in progress.
+// @verif id=C05 tier=quick role=clock_algebra timeout=900
+crate::verif_proof! { unwind = 4;
+fn c05_host_clock_algebra() {
+    fn d(ms: u32, ns: u32) -> Duration {
+        Duration::new((ms / 1000) as u64, (ms % 1000) * 1_000_000 + ns)
+    }
+    let off_ms: u32 = kani::any();
+    let epoch_s: u32 = kani::any();
+    let t1: u16 = kani::any();
+    let t2: u16 = kani::any();
+    let p_ns: u32 = kani::any();
+    kani::assume(p_ns < 1_000_000);
+    let offset = d(off_ms, 0);
+    let epoch = Duration::new(epoch_s as u64, 0);
+    let mut timer = HostTimer::new(offset, epoch);
+    // step 1: the runtime's clock stands at c0 when the host's turn starts
+    let c0 = Duration::new(5, 0);
+    tokio::time::model_set_now(c0);
+    timer.now(Instant::now());
+    assert!(timer.elapsed() == Duration::ZERO && timer.sim_elapsed() == offset && timer.since_epoch() == epoch + offset);
+    // in-step progress p
+    tokio::time::model_set_now(c0 + Duration::new(0, p_ns));
+    let e_mid = timer.elapsed();
+    assert!(e_mid == Duration::new(0, p_ns));
+    // end of step: tick by t1 ms; next step starts with a fresh instant
+    timer.tick(d(t1 as u32, 0));
+    tokio::time::model_set_now(c0 + d(t1 as u32, 0));
+    timer.now(Instant::now());
+    assert!(timer.elapsed() == d(t1 as u32, 0));
+    assert!(timer.elapsed() >= e_mid || (t1 as u32) * 1_000_000 < p_ns, "monotone unless the step was shorter than the observed progress");
+    timer.tick(d(t2 as u32, 0));
+    tokio::time::model_set_now(c0 + d(t1 as u32, 0) + d(t2 as u32, 0) + Duration::new(0, p_ns));
+    timer.now(Instant::model_at(c0 + d(t1 as u32, 0) + d(t2 as u32, 0)));
+    let e = timer.elapsed();
+    assert!(e == d(t1 as u32, 0) + d(t2 as u32, 0) + Duration::new(0, p_ns), "elapsed = sum of ticks + in-step progress");
+    assert!(timer.sim_elapsed() == offset + e, "sim time = host time + registration offset");
+    assert!(timer.since_epoch() == epoch + offset + e, "epoch time = epoch + sim time");
+    kani::cover!(t1 > 0 && t2 > 0 && p_ns > 0 && off_ms > 0, "all components non-zero");
+    std::mem::forget(timer);
+}
+}
+
+// ---------------------------------------------------------------------------------------------------
+// C12: listener queue. A SYN for `dst` is queued iff a listener is bound on dst.port AND its bind
+// address matches dst; otherwise the SYN (and with it the connector's one-shot sender) is dropped,
+// which the connector observes as ConnectionRefused. Queued requests are accepted in arrival order;
+// unbind discards the queue and frees the port.
+fn syn() -> (Syn, tokio::sync::oneshot::Receiver<()>) {
+    let (tx, rx) = tokio::sync::oneshot::channel();
+    (Syn { ack: tx }, rx)
+}
+fn syn_queue(bind_ip: IpAddr, dst_port: u16) -> (bool, u16) {
+    let mut tcp = Tcp::new(4);
+    let l = tcp.bind(SocketAddr::new(bind_ip, 80));
+    assert!(l.is_ok());
+    std::mem::forget(l);
+    let dst_ip = match kani::any::<u8>() % 3 {
+        0 => IpAddr::V4(Ipv4Addr::LOCALHOST),
+        1 => HOST_IP,
+        _ => OTHER_IP,
+    };
+    // the destination PORT is concrete per instance (it is the key of the bind-table lookup: a
+    // symbolic key turns every later access into a case split over all table slots); the destination
+    // ADDRESS, which only feeds the match predicate, is symbolic
+    let dst = SocketAddr::new(dst_ip, dst_port);
+    let src = SocketAddr::new(PEER_IP, kani::any());
+    let (s, rx) = syn();
+    let r = tcp.receive_from_network(src, dst, Segment::Syn(s));
+    assert!(r.is_ok());
+    std::mem::forget(r);
+    let should_queue = dst_port == 80 && (bind_ip.is_unspecified() || bind_ip == dst_ip);
+    let queued = tcp.binds.get(&80).unwrap().deque.len();
+    assert!(queued == should_queue as usize);
+    assert!(rx.model_sender_dropped() == !should_queue, "an unqueued request is dropped: the connector sees ConnectionRefused");
+    if should_queue {
+        let got = tcp.accept(SocketAddr::new(bind_ip, 80));
+        match got {
+            Some((_syn, from)) => assert!(from == src),
+            None => panic!("queued request must be acceptable"),
+        }
+    }
+    std::mem::forget(tcp);
+    std::mem::forget(rx);
+    (should_queue, dst_port)
+}
+// @verif id=C12 tier=quick role=syn_queue timeout=900 desc=listener=0.0.0.0:80
+crate::verif_proof! { unwind = 6;
+fn c12_syn_queue_wildcard_listener() {
+    let (q, _) = syn_queue(IpAddr::V4(Ipv4Addr::UNSPECIFIED), 80);
+    assert!(q);
+    kani::cover!(q, "wildcard listener accepts");
+}
+}
+// @verif id=C12 tier=quick role=syn_queue timeout=900 desc=listener=127.0.0.1:80
+crate::verif_proof! { unwind = 6;
+fn c12_syn_queue_localhost_listener() {
+    let (q, _) = syn_queue(IpAddr::V4(Ipv4Addr::LOCALHOST), 80);
+    kani::cover!(!q, "listener bound to another address refuses");
+    kani::cover!(q, "loopback destination accepted");
+}
+}
+// @verif id=C12 tier=quick role=syn_queue timeout=900 desc=listener=0.0.0.0:80,syn-to-port-81
+crate::verif_proof! { unwind = 6;
+fn c12_syn_to_unbound_port_is_refused() {
+    let (q, _) = syn_queue(IpAddr::V4(Ipv4Addr::UNSPECIFIED), 81);
+    assert!(!q);
+    kani::cover!(!q, "nobody listens on the port");
+}
+}
+// @verif id=C12 tier=thorough role=syn_queue timeout=900 desc=listener=host-ip:80
+crate::verif_proof! { unwind = 6;
+fn c12_syn_queue_specific_listener() {
+    let (q, _) = syn_queue(HOST_IP, 80);
+    kani::cover!(q, "host address accepted");
+    kani::cover!(!q, "other address refused");
+}
+}
+
+// @verif id=C12 tier=quick role=accept_order timeout=900
+crate::verif_proof! { unwind = 6;
+fn c12_accept_is_fifo_and_unbind_discards_the_queue() {
+    let mut tcp = Tcp::new(4);
+    let addr = SocketAddr::new(IpAddr::V4(Ipv4Addr::UNSPECIFIED), 80);
+    let l = tcp.bind(addr);
+    std::mem::forget(l);
+    let dst = SocketAddr::new(HOST_IP, 80);
+    let (s1, rx1) = syn();
+    let (s2, rx2) = syn();
+    let p1: u16 = kani::any();
+    let p2: u16 = kani::any();
+    kani::assume(p1 != p2);
+    let r = tcp.receive_from_network(SocketAddr::new(PEER_IP, p1), dst, Segment::Syn(s1));
+    std::mem::forget(r);
+    let r = tcp.receive_from_network(SocketAddr::new(OTHER_IP, p2), dst, Segment::Syn(s2));
+    std::mem::forget(r);
+    let unbind_first: bool = kani::any();
+    if unbind_first {
+        tcp.unbind(addr);
+        assert!(tcp.binds.get(&80).is_none(), "port is free again");
+        assert!(rx1.model_sender_dropped() && rx2.model_sender_dropped(), "dropping the listener refuses every queued request");
+        let again = tcp.bind(addr);
+        assert!(again.is_ok(), "the port can be bound again");
+        std::mem::forget(again);
+    } else {
+        let a = tcp.accept(addr).unwrap();
+        assert!(a.1 == SocketAddr::new(PEER_IP, p1), "first request first");
+        let b = tcp.accept(addr).unwrap();
+        assert!(b.1 == SocketAddr::new(OTHER_IP, p2));
+        assert!(tcp.accept(addr).is_none());
+        assert!(!rx1.model_sender_dropped() || true);
+        std::mem::forget(a);
+        std::mem::forget(b);
+    }
+    kani::cover!(unbind_first, "listener dropped with two queued requests");
+    kani::cover!(!unbind_first, "two accepts in arrival order");
+    std::mem::forget(tcp);
+    std::mem::forget(rx1);
+    std::mem::forget(rx2);
+}
+}
+
+// C12/C15: the live-stream table. A stream counts as established until both halves are closed (or it
+// is reset); afterwards its local port is assignable again; binding a port in use fails with
+// AddrInUse per protocol, UDP and TCP listener spaces are independent.
+// @verif id=C12,C15 tier=quick role=stream_table timeout=900
+crate::verif_proof! { unwind = 6;
+fn c12_stream_entry_lives_until_both_halves_closed() {
+    let mut tcp = Tcp::new(2);
+    let pair = SocketPair::new(SocketAddr::new(HOST_IP, 40000), SocketAddr::new(PEER_IP, 80));
+    let (rx, fc) = tcp.new_stream(pair);
+    assert!(tcp.stream_count() == 1 && tcp.is_port_assigned(40000));
+    let how: u8 = kani::any();
+    kani::assume(how < 3);
+    match how {
+        0 => {
+            tcp.close_stream_half(pair);
+            assert!(tcp.stream_count() == 1, "one half closed: still established");
+            tcp.close_stream_half(pair);
+        }
+        1 => tcp.reset_stream(pair),
+        _ => {
+            let r = tcp.receive_from_network(pair.remote, pair.local, Segment::Rst);
+            std::mem::forget(r);
+        }
+    }
+    assert!(tcp.stream_count() == 0, "no longer counts as established");
+    assert!(!tcp.is_port_assigned(40000), "its port can be handed out again");
+    // a late half-close or segment for the vanished stream is harmless / answered with RST
+    tcp.close_stream_half(pair);
+    let r = tcp.receive_from_network(pair.remote, pair.local, Segment::Fin(1));
+    assert!(matches!(r, Err(Protocol::Tcp(Segment::Rst))), "segments for unknown streams are reset");
+    std::mem::forget(r);
+    kani::cover!(how == 0, "graceful: both halves");
+    kani::cover!(how == 2, "reset by peer");
+    std::mem::forget(tcp);
+    std::mem::forget(rx);
+    std::mem::forget(fc);
+}
+}
+
+// C15-S1/S2: ephemeral port assignment on a host with a 4-port range, symbolic cursor, and a
+// symbolic occupancy made of one UDP bind, one TCP listener and one live TCP stream.
+// @verif id=C15 tier=quick role=ephemeral_ports timeout=900
+crate::verif_proof! { unwind = 8;
+fn c15_ephemeral_port_is_never_one_in_use() {
+    #[cfg(not(feature = "unstable-fs"))]
+    let mut host = Host::new("h", HOST_IP, HostTimer::new(Duration::ZERO, Duration::ZERO), 50000..=50003, 2, 2);
+    let cur: u16 = kani::any();
+    kani::assume(cur <= 3);
+    host.next_ephemeral_port = 50000 + cur;
+    let u: u16 = kani::any();
+    let t: u16 = kani::any();
+    let s: u16 = kani::any();
+    kani::assume(u <= 4 && t <= 4 && s <= 4); // 4 = not present
+    let mut used = [false; 4];
+    if u < 4 {
+        let r = host.udp.bind(SocketAddr::new(HOST_IP, 50000 + u));
+        assert!(r.is_ok());
+        std::mem::forget(r);
+        used[u as usize] = true;
+        // binding the same UDP port again fails, the TCP space is independent
+        let again = host.udp.bind(SocketAddr::new(IpAddr::V4(Ipv4Addr::UNSPECIFIED), 50000 + u));
+        match again {
+            Err(e) => {
+                assert!(e.kind() == io::ErrorKind::AddrInUse);
+                std::mem::forget(e);
+            }
+            Ok(_) => panic!("duplicate UDP bind must fail"),
+        }
+    }
+    if t < 4 {
+        let r = host.tcp.bind(SocketAddr::new(HOST_IP, 50000 + t));
+        assert!(r.is_ok(), "a TCP listener is not blocked by a UDP bind on the same port");
+        std::mem::forget(r);
+        used[t as usize] = true;
+    }
+    if s < 4 {
+        let pair = SocketPair::new(SocketAddr::new(HOST_IP, 50000 + s), SocketAddr::new(PEER_IP, 80));
+        let x = host.tcp.new_stream(pair);
+        std::mem::forget(x);
+        used[s as usize] = true;
+    }
+    kani::assume(!(used[0] && used[1] && used[2] && used[3]));
+    let p = host.assign_ephemeral_port();
+    assert!(p >= 50000 && p <= 50003);
+    assert!(!used[(p - 50000) as usize], "never a port bound by UDP, a TCP listener or a live stream");
+    // first free port cyclically from the cursor
+    let mut k = 0u16;
+    while k < 4 {
+        let q = (cur + k) % 4;
+        if !used[q as usize] {
+            assert!(p == 50000 + q);
+            break;
+        }
+        k += 1;
+    }
+    assert!(host.next_ephemeral_port >= 50000 && host.next_ephemeral_port <= 50003);
+    kani::cover!(used[cur as usize] && p < 50000 + cur, "skipped and wrapped around");
+    kani::cover!(u < 4 && t < 4 && s < 4 && u != t && t != s && u != s, "three ports taken by three kinds of socket");
+    std::mem::forget(host);
+}
 }
